@@ -33,7 +33,8 @@ theorem dropDebit_idPart (s : Store) (d : Option CredKey) : idPart (dropDebit s 
 
 theorem scanCredit_cases (limit : Nat) (addrs : List Addr) (sc : Scan) (e : CredKey × Credit) :
     scanCredit limit addrs sc e = sc ∨
-    scanCredit limit addrs sc e = { sc with finish := false, stopped := true } ∨
+    ((sc.count ≥ limit ∨ twoHeights sc.heightOf e.1 = true) ∧
+      scanCredit limit addrs sc e = { sc with finish := false, stopped := true }) ∨
     scanCredit limit addrs sc e = { sc with failed := true } ∨
     (sc.stopped = false ∧ sc.failed = false ∧ addrs.contains e.2.sh = true ∧
       ∃ d, spender e.2 = .ok d ∧
@@ -47,7 +48,9 @@ theorem scanCredit_cases (limit : Nat) (addrs : List Addr) (sc : Scan) (e : Cred
     · rw [if_pos h2]; exact Or.inl rfl
     · rw [if_neg h2]
       by_cases h3 : (decide (sc.count ≥ limit) || twoHeights sc.heightOf e.1) = true
-      · rw [if_pos h3]; exact Or.inr (Or.inl rfl)
+      · rw [if_pos h3]
+        refine Or.inr (Or.inl ⟨?_, rfl⟩)
+        simpa using h3
       · rw [if_neg h3]
         cases hs : spender e.2 with
         | error u => exact Or.inr (Or.inr (Or.inl rfl))
@@ -59,7 +62,7 @@ theorem scanCredit_cases (limit : Nat) (addrs : List Addr) (sc : Scan) (e : Cred
 
 theorem scanCredit_idPart (limit : Nat) (addrs : List Addr) (sc : Scan) (e : CredKey × Credit) :
     idPart (scanCredit limit addrs sc e).s = idPart sc.s := by
-  rcases scanCredit_cases limit addrs sc e with h | h | h | ⟨_, _, _, d, _, h⟩ <;> rw [h]
+  rcases scanCredit_cases limit addrs sc e with h | ⟨_, h⟩ | h | ⟨_, _, _, d, _, h⟩ <;> rw [h]
   exact dropDebit_idPart _ _
 
 theorem dropDebit_credits (s : Store) (d : Option CredKey) : (dropDebit s d).credits = s.credits := by
@@ -67,7 +70,7 @@ theorem dropDebit_credits (s : Store) (d : Option CredKey) : (dropDebit s d).cre
 
 theorem scanCredit_credits_sub (limit : Nat) (addrs : List Addr) (sc : Scan) (e x : CredKey × Credit)
     (h : x ∈ (scanCredit limit addrs sc e).s.credits) : x ∈ sc.s.credits := by
-  rcases scanCredit_cases limit addrs sc e with h' | h' | h' | ⟨_, _, _, d, _, h'⟩ <;> rw [h'] at h
+  rcases scanCredit_cases limit addrs sc e with h' | ⟨_, h'⟩ | h' | ⟨_, _, _, d, _, h'⟩ <;> rw [h'] at h
   · exact h
   · exact h
   · exact h
@@ -76,7 +79,7 @@ theorem scanCredit_credits_sub (limit : Nat) (addrs : List Addr) (sc : Scan) (e 
 
 theorem scanCredit_debits_sub (limit : Nat) (addrs : List Addr) (sc : Scan) (e : CredKey × Credit)
     (x : CredKey × (Nat × CredKey)) (h : x ∈ (scanCredit limit addrs sc e).s.debits) : x ∈ sc.s.debits := by
-  rcases scanCredit_cases limit addrs sc e with h' | h' | h' | ⟨_, _, _, d, _, h'⟩ <;> rw [h'] at h
+  rcases scanCredit_cases limit addrs sc e with h' | ⟨_, h'⟩ | h' | ⟨_, _, _, d, _, h'⟩ <;> rw [h'] at h
   · exact h
   · exact h
   · exact h
@@ -89,7 +92,7 @@ def Sticky (sc : Scan) : Prop := sc.stopped = true → sc.finish = false
 
 theorem scanCredit_sticky (limit : Nat) (addrs : List Addr) (sc : Scan) (e : CredKey × Credit)
     (h : Sticky sc) : Sticky (scanCredit limit addrs sc e) := by
-  rcases scanCredit_cases limit addrs sc e with h' | h' | h' | ⟨hs, _, _, d, _, h'⟩ <;> rw [h']
+  rcases scanCredit_cases limit addrs sc e with h' | ⟨_, h'⟩ | h' | ⟨hs, _, _, d, _, h'⟩ <;> rw [h']
   · exact h
   · intro _; rfl
   · exact h
@@ -99,7 +102,7 @@ theorem scanCredit_sticky (limit : Nat) (addrs : List Addr) (sc : Scan) (e : Cre
 theorem scanCredit_live_of_live (limit : Nat) (addrs : List Addr) (sc : Scan) (e : CredKey × Credit)
     (h : (scanCredit limit addrs sc e).stopped = false ∧ (scanCredit limit addrs sc e).failed = false) :
     sc.stopped = false ∧ sc.failed = false := by
-  rcases scanCredit_cases limit addrs sc e with h' | h' | h' | ⟨hs, hf, _, d, _, h'⟩ <;> rw [h'] at h
+  rcases scanCredit_cases limit addrs sc e with h' | ⟨_, h'⟩ | h' | ⟨hs, hf, _, d, _, h'⟩ <;> rw [h'] at h
   · exact h
   · simp at h
   · simp at h
@@ -110,7 +113,7 @@ theorem scanCredit_erases (limit : Nat) (addrs : List Addr) (sc : Scan) (e : Cre
     (hl : (scanCredit limit addrs sc e).stopped = false ∧ (scanCredit limit addrs sc e).failed = false)
     (hm : addrs.contains e.2.sh = true) :
     ∀ x ∈ (scanCredit limit addrs sc e).s.credits, x.1 ≠ e.1 := by
-  rcases scanCredit_cases limit addrs sc e with h' | h' | h' | ⟨hs, hf, _, d, _, h'⟩
+  rcases scanCredit_cases limit addrs sc e with h' | ⟨_, h'⟩ | h' | ⟨hs, hf, _, d, _, h'⟩
   · -- unchanged although the credit matches: impossible for a live scan
     exfalso
     have hlive := scanCredit_live_of_live limit addrs sc e hl
